@@ -7,7 +7,7 @@ newline removed, parentheses as separate items) and classifies the file:
 
   VALID                      every construct is covered by the grammar
   INVALID(reason, offset)    unterminated-string | unterminated-bracket | unterminated-bracket-comment | bad-escape |
-                             paren-imbalance | stray-text | text-after-command-on-same-line
+                             paren-imbalance | stray-text | text-after-command-on-same-line | identifier-separated-from-paren
   legacy flags               unquoted argument with embedded quote or $(...), argument glued to a preceding
                              quoted/bracket argument or bracket comment -- never asserted on
 
@@ -66,6 +66,7 @@ def lex(text):
     expect_paren = False # identifier seen, '(' must follow
     after_cmd = False    # ')' of a command seen, only space/comment/newline may follow on this line
     glued = False        # previous token was a quoted/bracket argument or bracket comment, no whitespace since
+    soft_paren = False   # identifier separated from its '(' by comments/newlines only (reported, then tolerated)
 
     def fail(reason, off):
         r.all_invalid.append((reason, off))
@@ -85,7 +86,7 @@ def lex(text):
             line += 1
             glued = False
             after_cmd = False
-            if expect_paren:
+            if expect_paren and not soft_paren:
                 fail("stray-text", i)
                 expect_paren = False
             continue
@@ -121,6 +122,7 @@ def lex(text):
                 continue
             if expect_paren:
                 expect_paren = False
+                soft_paren = False
                 depth = 1
             else:
                 depth += 1
@@ -250,9 +252,33 @@ def lex(text):
                 while k < n and text[k] in " \t":
                     k += 1
                 if k >= n or text[k] != "(":
-                    fail("stray-text", start)
-                    cur = None
-                    expect_paren = False
+                    # CMake insists on "identifier [blanks] (" ; if only comments / line breaks separate the two, the
+                    # command is still recognisable (CMinx skips comments and newlines everywhere). That is a fault of
+                    # its own kind, not one of C06's classes.
+                    kk = k
+                    while kk < n:
+                        if text[kk] in " \t\r\n":
+                            kk += 1
+                            continue
+                        if text[kk] == "#":
+                            mm = BR_OPEN.match(text, kk + 1)
+                            if mm:
+                                e2 = _bracket_close(text, mm.end(), len(mm.group(1)))
+                                if e2 < 0:
+                                    break
+                                kk = e2
+                                continue
+                            while kk < n and text[kk] not in "\r\n":
+                                kk += 1
+                            continue
+                        break
+                    if kk < n and text[kk] == "(":
+                        fail("identifier-separated-from-paren", start)
+                        soft_paren = True
+                    else:
+                        fail("stray-text", start)
+                        cur = None
+                        expect_paren = False
             i = end
             glued = False
             continue
